@@ -1,19 +1,24 @@
 """C05 — margin invariant and NLV decomposition (family L, DESIGN §4 C05)."""
-from harness import l_ops
+from harness import l_ops, l_seq
 from harness.ledger import ASSUMPTIONS as _A
 
 PROPERTY = "C05"
-harness = l_ops.harness
+
+
+def harness(c, cfg):
+    if cfg.get("op") == "seq":
+        return l_seq.harness(c, cfg)
+    return l_ops.harness(c, cfg)
 
 
 def configs(tier):
-    return l_ops.configs_for("C05", tier)
+    return l_ops.configs_for("C05", tier) + l_seq.configs_for("C05", tier)
 
 
 ANCHORS = ["broker.py:Broker.transact", "broker.py:Broker.marking_to_market",
            "broker.py:Broker.holdings_values", "broker.py:Broker.net_liquidation_value",
            "broker.py:Broker.holdings_weights", "exchange.py:LimitOrderBook.liq_price"]
-EXPECT_REACH = ["trade", "quote", "mtm"]
+EXPECT_REACH = ["trade", "quote", "mtm", "sequence"]
 ASSUMPTIONS = _A
 BOUNDS = {
     "quick": "one traded contract (user-defined spot-like or margined spec with symbolic multiplier "
@@ -23,7 +28,8 @@ BOUNDS = {
     "thorough": "as quick plus a bystander contract of either kind in every shape (two non-cash "
                 "contracts + cash)",
 }
-OUTSIDE = ["IEEE rounding", "the 1e-7 snap band", "more than two non-cash contracts (independence by "
+OUTSIDE = ["IEEE rounding", "the 1e-7 snap band", "from-reset sequences longer than 3-4 operations (they cross-check the "
+           "inductive step and the INV shapes, they are not the induction)", "more than two non-cash contracts (independence by "
            "the per-contract loop structure, not machine-checked)",
            "the induction over the number of operations is an argument on paper; each step is checked"]
 STUBS = []
